@@ -65,6 +65,10 @@ var c16defects = []c16defect{
 		c.Params = append(c.Params, Param{"ptTrailing", "%host.%"}, Param{"ptDouble", "x%db..name%"}, Param{"ptDash", "%time-%y"})
 		c.Services = append(c.Services, Service{Name: "stToken", Constructor: P("NewT"), Args: []any{"%a_%"}})
 	}, `"%host.%"`},
+	{"ref-trailing-blank", "token2", func(c *Cfg) {
+		// a declared name followed by white space is a malformed reference (compile error), not a missing service
+		c.Services = append(c.Services, Service{Name: "stTrailing", Constructor: P("NewT"), Args: []any{"@carrier\n"}, Fields: []KV{{"F", "@carrier "}}})
+	}, `"stTrailing"`},
 	{"grammar", "grammar", func(c *Cfg) {
 		c.Services = append(c.Services, Service{Name: "1bad", Constructor: P("NewT")})
 	}, `"1bad"`},
@@ -88,6 +92,7 @@ var c16prefix = map[string]string{
 	"scope":    "output.ValidateServicesScopes:",
 	"grammar":  "compiler.StepValidateInput:",
 	"token":    "compiler.StepCompile",
+	"token2":   "compiler.StepCompile",
 }
 
 func c16base() *Cfg {
@@ -107,7 +112,7 @@ func init() {
 	Register(&Check{
 		ID:    "C16",
 		Level: "exploration",
-		Rule: "all subsets of size <= k (k=5 quick, all subsets thorough) of 15 injected defects {missing parameter in a field of a value service, missing service in a call of a type-only service, malformed references made of name characters (compile stage), missing param x3 positions, missing service x3 positions, param cycle, service cycle, scope violation, scope violation on a service that also has missing dependencies, grammar violation} x the 4 combinations of --ignore-missing-params / --ignore-missing-services, each with and without --stub, with --quiet / -q, and in twelve flag spellings; eight sparse configurations (whole sections absent); " +
+		Rule: "all subsets of size <= k (k=5 quick, all subsets thorough) of 16 injected defects {references to declared services followed by white space (compile stage), missing parameter in a field of a value service, missing service in a call of a type-only service, malformed references made of name characters (compile stage), missing param x3 positions, missing service x3 positions, param cycle, service cycle, scope violation, scope violation on a service that also has missing dependencies, grammar violation} x the 4 combinations of --ignore-missing-params / --ignore-missing-services, each with and without --stub, with --quiet / -q, and in twelve flag spellings; eight sparse configurations (whole sections absent); " +
 			"non-trivial = at least one defect and at least one flag set; distinct = distinct (defect set, flags)",
 		Assumptions: []string{
 			"diagnostic classes are told apart by the rule prefix the tool prints; lines are compared as ordered lists between flag combinations",
@@ -173,6 +178,24 @@ func init() {
 					}
 				})
 			}
+			// the defects and the flags mean the same however the YAML presents the configuration
+			for _, sel := range [][]int{{}, {0, 1, 2}, {3, 4, 5}, {0, 4, 6, 8}, {1, 5, 10}} {
+				for _, flags := range flagSets[:4] {
+					sel, flags := sel, flags
+					w.Case(fmt.Sprintf("yaml-presentation/defects%v/%v", sel, flags), func(c *C) {
+						cfg := c16base()
+						for _, i := range sel {
+							c16defects[i].apply(cfg)
+						}
+						c.Distinct("all", c.ID)
+						if len(sel) == 0 {
+							w.ShapeInvarianceOK(c, c.ID, []File{{"c.yaml", cfg.YAML()}}, true, flags...)
+							return
+						}
+						w.ShapeInvariance(c, c.ID, []File{{"c.yaml", cfg.YAML()}}, flags...)
+					})
+				}
+			}
 			k := 5
 			if !w.Env.Quick() {
 				k = len(c16defects)
@@ -183,7 +206,7 @@ func init() {
 					w.Case(fmt.Sprintf("defects%v", sel), func(c *C) {
 						cfg := c16base()
 						var ids []string
-						hasGrammar, hasToken := false, false
+						hasGrammar, hasToken, hasToken2 := false, false, false
 						for _, i := range sel {
 							c16defects[i].apply(cfg)
 							ids = append(ids, c16defects[i].id)
@@ -192,6 +215,9 @@ func init() {
 							}
 							if c16defects[i].class == "token" {
 								hasToken = true
+							}
+							if c16defects[i].class == "token2" {
+								hasToken2 = true
 							}
 						}
 						y := cfg.YAML()
@@ -236,7 +262,25 @@ func init() {
 								}
 								for _, i := range sel {
 									d := c16defects[i]
-									if hasGrammar && d.class != "grammar" || hasToken && !hasGrammar && d.class != "token" {
+									// stages run in sequence (validation, parameters, services, output rules); the first failing one masks the rest
+									stage := map[string]int{"grammar": 1, "token": 2, "token2": 3}
+									st := func(cl string) int {
+										if v, ok := stage[cl]; ok {
+											return v
+										}
+										return 4
+									}
+									first := 4
+									if hasToken2 {
+										first = 3
+									}
+									if hasToken {
+										first = 2
+									}
+									if hasGrammar {
+										first = 1
+									}
+									if st(d.class) != first {
 										continue // masked by the earlier stage
 									}
 									found := false
@@ -268,7 +312,7 @@ func init() {
 										drop = true
 									}
 								}
-								if hasGrammar || hasToken {
+								if hasGrammar || hasToken || hasToken2 {
 									drop = false
 								}
 								if !drop {
